@@ -38,7 +38,11 @@ fn main() {
         && !servers::is_fake_rsync_invocation(&args)
     {
         let _ = log::set_logger(&StderrLog);
-        log::set_max_level(log::LevelFilter::Info);
+        log::set_max_level(
+            if std::env::var("VERIF_LOG").as_deref() == Ok("debug") {
+                log::LevelFilter::Debug
+            } else { log::LevelFilter::Info }
+        );
     }
     if servers::is_fake_rsync_invocation(&args) {
         std::process::exit(servers::fake_rsync_main(&args));
